@@ -228,6 +228,14 @@ func run(c *harness.Ctx, i int) {
 		dsu.Must(dsu.WriteIndex(idxFile, idx))
 		mutation += "|name:" + idxName
 		cmd := exec.Command(cli, "verify-index", "-n", fmt.Sprint(n), idxFile, file)
+		if st, lerr := exec.LookPath("strace"); lerr == nil && !want && rng.Intn(2) == 0 {
+			// a read of the data file that fails once with a transient error (EAGAIN, injected into the k-th pread of
+			// that file): whatever the command does about it, a file that does not match is not accepted
+			k := 1 + rng.Intn(nc+1)
+			cmd = exec.Command(st, "-f", "-o", "/dev/null", "-P", file, "-e", "trace=pread64", "-e", fmt.Sprintf("inject=pread64:error=EAGAIN:when=%d", k), cli, "verify-index", "-n", fmt.Sprint(n), idxFile, file)
+			mutation += "|read-fault"
+			c.Count("cli_runs_with_read_fault", 1)
+		}
 		cmd.Env = append(os.Environ(), "HOME="+dir)
 		var stderr bytes.Buffer
 		cmd.Stderr = &stderr
@@ -257,6 +265,26 @@ func run(c *harness.Ctx, i int) {
 	if !want && err == nil {
 		c.Violation("mismatch-accepted:"+mutation, "file does not match the index (mutation %s, %d chunks, n=%d, batch=%d, index kind %s) but verify-index succeeded", mutation, nc, n, batch, kind)
 		return
+	}
+	if want && !useCLI && len(data) > 0 && rng.Intn(3) == 0 {
+		// a history within one process: the file verified fine; then a byte is altered in place, size and modification
+		// time as before (silent corruption, a writer that restores the time stamps); the next verification must fail
+		real := file
+		if t, lerr := filepath.EvalSymlinks(file); lerr == nil {
+			real = t
+		}
+		st, _ := os.Stat(real)
+		pos := []int{0, len(data) - 1, rng.Intn(len(data))}[rng.Intn(3)]
+		if f, oerr := os.OpenFile(real, os.O_WRONLY, 0); oerr == nil {
+			f.WriteAt([]byte{data[pos] ^ 0x41}, int64(pos))
+			f.Close()
+			os.Chtimes(real, st.ModTime(), st.ModTime())
+			if err2 := desync.VerifyIndex(context.Background(), file, idx, n, &dsu.CountPB{}); err2 == nil {
+				c.Violation("mismatch-accepted:second-verification", "the file verified fine; then byte %d of %d was altered in place (same size, same mtime): the second verification in this process succeeded too (%d chunks, n=%d)", pos, len(data), nc, n)
+				return
+			}
+			c.Count("second_verifications_rejected", 1)
+		}
 	}
 	if want && !useCLI {
 		if sum, _ := pb.Get(); sum != int64(nc) {
